@@ -43,5 +43,59 @@ static inline void vifs_clear(vifs *f) { f->failbit = false; f->eofbit = false; 
 /* std::string result: bytes written into a caller-provided ghost buffer */
 typedef struct vstr { char *data; size_t cap; size_t len; } vstr;
 
+static inline void vstr_push_back(vstr *m, char c) { VERIF_STD_PRE(m->len < m->cap, "ghost capacity of the output string"); m->data[m->len] = c; m->len = m->len + 1; }
+/* append of at most 4 bytes (the UTF-8 encoder's buffer), unrolled: loop-free */
+static inline void vstr_append(vstr *m, const char *b, size_t n) {
+  VERIF_STD_PRE(n <= 4, "model bound: append of at most 4 bytes");
+  if (n > 0) vstr_push_back(m, b[0]);
+  if (n > 1) vstr_push_back(m, b[1]);
+  if (n > 2) vstr_push_back(m, b[2]);
+  if (n > 3) vstr_push_back(m, b[3]);
+}
+/* an output std::string seen as (length, its last 8 bytes): enough to state "exactly these bytes
+ * were appended" for appends of up to 8 bytes, without any symbolic-index memory (the buffer
+ * model above made cbmc's formulas explode: 3.3M variables for the 4-branch UTF-8 encoder) */
+typedef struct vtail { size_t len; unsigned char t[8]; } vtail;
+static inline void vtail_push_back(vtail *m, char c) {
+  m->t[0] = m->t[1]; m->t[1] = m->t[2]; m->t[2] = m->t[3]; m->t[3] = m->t[4]; m->t[4] = m->t[5]; m->t[5] = m->t[6]; m->t[6] = m->t[7];
+  m->t[7] = (unsigned char)c; m->len = m->len + 1;
+}
+static inline void vtail_append(vtail *m, const char *b, size_t n) {
+  VERIF_STD_PRE(n <= 4, "model bound: append of at most 4 bytes");
+  if (n > 0) vtail_push_back(m, b[0]);
+  if (n > 1) vtail_push_back(m, b[1]);
+  if (n > 2) vtail_push_back(m, b[2]);
+  if (n > 3) vtail_push_back(m, b[3]);
+}
+/* a short std::string (escape digits being collected): at most VSMALL_CAP characters; the
+ * capacity is a ghost bound that every push_back must respect (checked, class [S]) */
+#define VSMALL_CAP 8
+typedef struct vsmall { char d[VSMALL_CAP]; size_t n; } vsmall;
+static inline bool vsmall_empty(const vsmall *s) { return s->n == 0; }
+static inline size_t vsmall_size(const vsmall *s) { return s->n; }
+static inline void vsmall_clear(vsmall *s) { s->n = 0; }
+static inline void vsmall_push_back(vsmall *s, char c) { VERIF_STD_PRE(s->n < VSMALL_CAP, "ghost capacity of the digit string"); s->d[s->n] = c; s->n = s->n + 1; }
+static inline int verif_digit(char c) { return (c >= '0' && c <= '9') ? c - '0' : (c >= 'a' && c <= 'f') ? c - 'a' + 10 : (c >= 'A' && c <= 'F') ? c - 'A' + 10 : 99; }
+/* std::stoll / std::stoul / std::stoi on a string without sign or whitespace, [string.conversions]:
+ * converts the longest prefix of base-`base` digits; no digits -> invalid_argument; value not
+ * representable in the result type -> out_of_range.  Trusted model, written loop-free (the digit
+ * string holds at most VSMALL_CAP = 8 characters). */
+#define VERIF_STO_STEP(i) \
+  if (!verif_stop && (i) < s->n) { int dg = verif_digit(s->d[i]); \
+    if (dg >= base) verif_stop = 1; \
+    else { if (v > ((maxv - (unsigned long long)dg) >> (base == 16 ? 4 : 3))) { /* == (maxv - dg) / base for base 8 or 16 */ VERIF_THROW(K_out_of_range, "std::sto*: value out of range of the result type"); } \
+           v = v * (unsigned long long)base + (unsigned long long)dg; } }
+static inline unsigned long long verif_stoull_(const vsmall *s, int base, unsigned long long maxv) {
+  VERIF_STD_PRE(base == 8 || base == 16, "model covers bases 8 and 16 only");
+  if (s->n == 0 || verif_digit(s->d[0]) >= base) { VERIF_THROW(K_invalid_argument, "std::sto*: no conversion could be performed"); }
+  unsigned long long v = 0;
+  int verif_stop = 0;
+  VERIF_STO_STEP(0) VERIF_STO_STEP(1) VERIF_STO_STEP(2) VERIF_STO_STEP(3) VERIF_STO_STEP(4) VERIF_STO_STEP(5) VERIF_STO_STEP(6) VERIF_STO_STEP(7)
+  return v;
+}
+static inline long long verif_stoll(const vsmall *s, int base) { return (long long)verif_stoull_(s, base, (unsigned long long)LLONG_MAX); }
+static inline unsigned long verif_stoul(const vsmall *s, int base) { return (unsigned long)verif_stoull_(s, base, ULONG_MAX); }
+static inline int verif_stoi(const vsmall *s, int base) { return (int)verif_stoull_(s, base, (unsigned long long)INT_MAX); }
+
 #define VERIF_SWAP(a, b) do { __typeof__(a) verif_t = (a); (a) = (b); (b) = verif_t; } while (0)
 #endif
